@@ -68,6 +68,25 @@ ROpen(w) == /\ pc[w] = "r_open" /\ DoOpen /\ Frame(w, "write")
 Write(w) == /\ pc[w] = "write" /\ inodes' = [inodes EXCEPT ![fd] = Append(@, cur[w].id)]
             /\ W' = Append(W, cur[w].id) /\ Frame(w, "count")
             /\ UNCHANGED <<dir, fd, fname, bw, lc, now, holder, cur, acked, nextEv, aux, pruned>>
+(* the write fails without writing anything (no space left): Process closes and reopens its file and tries once  *)
+(* more; a second failure ends the call with an error - no acknowledgement. The retried write is not counted.     *)
+WriteFail(w) == /\ pc[w] = "write" /\ aux < MaxAux /\ aux' = aux + 1 /\ Frame(w, "wr_stat")
+                /\ UNCHANGED <<inodes, dir, fd, fname, bw, lc, now, holder, cur, acked, W, nextEv, pruned>>
+WrStat(w) == /\ pc[w] = "wr_stat"
+             /\ fd' = IF fd # 0 /\ Lookup(fname) = 0 THEN 0 ELSE fd
+             /\ Frame(w, "wr_open") /\ UNCHANGED <<inodes, dir, fname, bw, lc, now, holder, cur, acked, W, nextEv, aux, pruned>>
+WrOpen(w) == /\ pc[w] = "wr_open"
+             /\ LET t == now + 1
+                    name == IF TOOR \/ ~RotEnabled THEN ACT ELSE <<"ts", t>>
+                    ex == Lookup(name)
+                IN /\ now' = t /\ lc' = t /\ bw' = 0 /\ fname' = name
+                   /\ IF ex # 0 THEN fd' = ex /\ UNCHANGED <<inodes, dir>>
+                      ELSE inodes' = Append(inodes, <<>>) /\ fd' = Len(inodes) + 1 /\ dir' = dir \cup {<<name, Len(inodes) + 1>>}
+             /\ Frame(w, "wr_retry") /\ UNCHANGED <<holder, cur, acked, W, nextEv, aux, pruned>>
+WrRetry(w) == /\ pc[w] = "wr_retry"
+              /\ \/ /\ inodes' = [inodes EXCEPT ![fd] = Append(@, cur[w].id)] /\ W' = Append(W, cur[w].id) /\ Frame(w, "unlock") /\ UNCHANGED aux
+                 \/ /\ aux < MaxAux /\ aux' = aux + 1 /\ Frame(w, "fail") /\ UNCHANGED <<inodes, W>>
+              /\ UNCHANGED <<dir, fd, fname, bw, lc, now, holder, cur, acked, nextEv, pruned>>
 Count(w) == /\ pc[w] = "count" /\ bw' = bw + cur[w].sz /\ Frame(w, "unlock")
             /\ UNCHANGED <<inodes, dir, fd, fname, lc, now, holder, cur, acked, W, nextEv, aux, pruned>>
 Unlock(w) == /\ pc[w] \in {"unlock", "fail", "ro_done"} /\ holder' = "none" /\ Frame(w, "idle")
@@ -93,7 +112,7 @@ Crash == /\ aux < MaxAux /\ aux' = aux + 1 /\ fd' = 0 /\ fname' = NONE /\ bw' = 
          /\ pc' = [w \in Writers |-> "idle"] /\ now' = now + 1
          /\ UNCHANGED <<inodes, dir, cur, acked, W, nextEv, pruned>>
 NextA == \/ \E w \in Writers : Begin(w) \/ BeginReopen(w) \/ Lock(w) \/ OpenIfNeeded(w) \/ RotChk(w) \/ RClose(w) \/ RRename(w)
-                               \/ RPrune(w) \/ ROpen(w) \/ Write(w) \/ Count(w) \/ Unlock(w) \/ RoStat(w) \/ RoOpen(w)
+                               \/ RPrune(w) \/ ROpen(w) \/ Write(w) \/ WriteFail(w) \/ WrStat(w) \/ WrOpen(w) \/ WrRetry(w) \/ Count(w) \/ Unlock(w) \/ RoStat(w) \/ RoOpen(w)
          \/ ExtRename \/ Pause
 Range(q) == {q[i] : i \in 1..Len(q)}
 Next == (NextA /\ UNCHANGED lost) \/ (Crash /\ lost' = lost \cup (Range(W) \ Range(acked)))
